@@ -55,13 +55,13 @@ package scs
 
 // ---- API operations
 //@ contract (*builder).IsZero
-//@   props C05
+//@   props C05 C04
 //@   assigns *builder.cs, *builder.mtBooleans
 //@   requires wfB(builder)
 //@   ensures @iszero denS(builder, result) == (denS(builder, i1) == f0 ? f1 : f0)
 
 //@ contract (*builder).AssertIsBoolean
-//@   props C05
+//@   props C05 C04
 //@   assigns *builder.cs, *builder.mtBooleans
 //@   requires wfB(builder)
 //   x - x*x == 0 forces x into {0,1} (no zero divisors); stated for the denotation of i1 so that the
@@ -70,7 +70,7 @@ package scs
 //@   ensures @bool isBool(denS(builder, i1))
 
 //@ contract (*builder).AssertIsEqual
-//@   props C05
+//@   props C05 C04
 //@   assigns *builder.cs, *builder.mtBooleans
 //@   requires wfB(builder)
 //@   ensures @eq denS(builder, i1) == denS(builder, i2)
@@ -143,7 +143,7 @@ package scs
 
 
 //@ contract (*builder).Inverse
-//@   props C05
+//@   props C05 C04
 //@   assigns *builder.cs
 //@   requires wfB(builder)
 //@   ensures @inverse fmul(denS(builder, result), denS(builder, i1)) == f1
@@ -154,13 +154,13 @@ package scs
 
 
 //@ contract (*builder).And
-//@   props C05
+//@   props C05 C04
 //@   assigns *builder.cs, *builder.mtBooleans
 //@   requires wfB(builder)
 //@   ensures @and isBool(denS(builder, a)) && isBool(denS(builder, b)) && denS(builder, result) == fmul(denS(builder, a), denS(builder, b))
 
 //@ contract (*builder).Xor
-//@   props C05
+//@   props C05 C04
 //@   assigns *builder.cs, *builder.mtBooleans
 //@   requires wfB(builder)
 //   the three gate shapes, each solved for the result over boolean inputs: r = a + b - 2ab; (1-2b)a + b - r = 0 with
@@ -171,7 +171,7 @@ package scs
 //@   ensures @xor isBool(denS(builder, a)) && isBool(denS(builder, b)) && denS(builder, result) == (denS(builder, a) == denS(builder, b) ? f0 : f1)
 
 //@ contract (*builder).Or
-//@   props C05
+//@   props C05 C04
 //@   assigns *builder.cs, *builder.mtBooleans
 //@   requires wfB(builder)
 //   the gate -a - b + ab + r = 0 solved for r over boolean inputs
@@ -179,7 +179,7 @@ package scs
 //@   ensures @or isBool(denS(builder, a)) && isBool(denS(builder, b)) && denS(builder, result) == ((denS(builder, a) == f1 || denS(builder, b) == f1) ? f1 : f0)
 
 //@ contract (*builder).Lookup2
-//@   props C05
+//@   props C05 C04
 //@   assigns *builder.cs, *builder.mtBooleans
 //@   requires wfB(builder)
 //   truth table of (i2-i0)*s1 + (((i3-i2)+(i0-i1))*s1 - (i0-i1))*s0 + i0 over s0, s1 in {0,1}
@@ -188,7 +188,7 @@ package scs
 //@   ensures @lookup denS(builder, result) == (denS(builder, b1) == f1 ? (denS(builder, b0) == f1 ? denS(builder, i3) : denS(builder, i2)) : (denS(builder, b0) == f1 ? denS(builder, i1) : denS(builder, i0)))
 
 //@ contract (*builder).DivUnchecked
-//@   props C05
+//@   props C05 C04
 //@   assigns *builder.cs
 //@   requires wfB(builder)
 //   c * (1/d) * d = c for a non-zero d, in the shapes the three constant cases produce
@@ -198,7 +198,7 @@ package scs
 //@   ensures @quotient fmul(denS(builder, result), denS(builder, i2)) == denS(builder, i1)
 
 //@ contract (*builder).Div
-//@   props C05
+//@   props C05 C04
 //@   assigns *builder.cs
 //@   requires wfB(builder)
 //@   ensures @nonzero denS(builder, i2) != f0
@@ -221,7 +221,7 @@ package scs
 //@   ensures @muladd denS(builder, result) == fadd(denS(builder, a), fmul(denS(builder, b), denS(builder, c)))
 
 //@ contract (*builder).Select
-//@   props C05
+//@   props C05 C04
 //@   assigns *builder.cs, *builder.mtBooleans
 //@   requires wfB(builder)
 //   (i1 - i2)*b + i2 over b in {0,1}
@@ -230,7 +230,7 @@ package scs
 
 
 //@ contract (*builder).AssertIsDifferent
-//@   props C05
+//@   props C05 C04
 //@   assigns *builder.cs, *builder.mtBooleans
 //@   requires wfB(builder)
 //@   ensures @different denS(builder, i1) != denS(builder, i2)
@@ -243,7 +243,7 @@ package scs
 //@ spec func samePrefix(b *builder, s []Variable, e []Variable) bool = forall k int :: 0 <= k && k < len(e) ==> denS(b, s[k]) == denS(b, e[k])
 //@ spec func zeroAbove(b *builder, s []Variable, e []Variable) bool = forall k int :: len(e) <= k && k < len(s) ==> denS(b, s[k]) == f0
 //@ contract (*builder).MustBeLessOrEqCst
-//@   props C05
+//@   props C05 C04
 //   (spare(aBits): the padding loop appends into the spare capacity of the caller's slice)
 //@   assigns *builder.cs, *builder.mtBooleans, spare(aBits)
 //@   requires wfB(builder) && bound != nil
@@ -289,7 +289,7 @@ package scs
 // uses are the ones proved in this file for denS, resp. assumed for Add / Mul). Top-down induction: res is 0
 // while the high parts agree, and from the first differing bit on it is 1 or -1 and never changes.
 //@ contract (*builder).Cmp
-//@   props C05
+//@   props C05 C04
 //   (i1, i2: ToBinary hands them to the builder, whose boolean bookkeeping may reorder a linear expression)
 //@   assigns *builder.cs, *builder.mtBooleans, i1, i2
 //@   requires wfB(builder)
@@ -313,7 +313,7 @@ package scs
 // (only their recomposition is constrained); the running product p then forces every digit boolean and the
 // number they spell to be at most the bound, exactly as in MustBeLessOrEqCst with the bound's bits as wires.
 //@ contract (*builder).mustBeLessOrEqVar
-//@   props C05
+//@   props C05 C04
 //@   assigns *builder.cs, *builder.mtBooleans, a
 //@   requires wfB(builder)
 //@   lemma @bridge den(a) == denS(builder, a) && den(iface(bound)) == denT(builder, bound)
@@ -335,7 +335,7 @@ package scs
 // AssertIsLessOrEqual: a constant bound goes through raw digits of v and MustBeLessOrEqCst, a variable bound through
 // mustBeLessOrEqVar.
 //@ contract (*builder).AssertIsLessOrEqual
-//@   props C05
+//@   props C05 C04
 //@   assigns *builder.cs, *builder.mtBooleans, v
 //@   requires wfB(builder)
 //@   lemma @bridge den(v) == denS(builder, v)
